@@ -2,7 +2,10 @@
 (* Cases for C04: tag class x exception flag x where the tagged dict sits in the payload x what its members look like. *)
 EXTENDS ClassTag, Sequences, TLC, Json
 Positions == {"top", "in_list", "in_dict", "in_tuple", "deep", "as_exception_arg", "as_exception_attribute", "in_wrapper", "as_state_member"}
-Bodies == {"minimal", "plain_args", "empty_args", "one_str_arg", "hostile_args", "hostile_attributes", "hostile_state", "nested_tag_in_args"}
+\* proxy_members: args / attributes / state / wrapped exception / value are themselves class dicts of a Proxy (an object that
+\* contacts its daemon when it is iterated or asked for an attribute); proxy_in_state: such dicts as members of the state list
+Bodies == {"minimal", "plain_args", "empty_args", "one_str_arg", "hostile_args", "hostile_attributes", "hostile_state", "nested_tag_in_args",
+           "proxy_members", "proxy_in_state"}
 VARIABLE done
 GInit == done = FALSE /\ c = "uri" /\ flagged = FALSE /\ registered = FALSE /\ ser = "json"
 GNext == /\ ~done /\ done' = TRUE /\ UNCHANGED <<c, flagged, registered, ser>>
